@@ -2,6 +2,7 @@
 import random
 from common import *  # noqa
 import c08
+from langgen import coq_rcase, evaluate_reader, RCODES
 
 PID = "C10"
 ENTRIES5 = ["builder-full", "builder-incremental", "pool-construction", "pool-full-update", "pool-incremental-update"]
@@ -48,6 +49,24 @@ def mutate(rng, text):
     return " ".join(toks)
 
 
+CHARS = list("abeEfrRx_019") + list(".\"=!<>&|+-*/()[]{},;:@# \n\t")
+
+
+def cmutate(rng, text):
+    """character-level edits: what the token rules (longest match, keywords, numbers, names with dots, two-character operators) decide"""
+    cs = list(text)
+    for _ in range(rng.randint(1, 3)):
+        i = rng.randrange(len(cs) + 1)
+        k = rng.random()
+        if k < 0.35 and i < len(cs):
+            del cs[i]
+        elif k < 0.7:
+            cs.insert(i, rng.choice(CHARS))
+        elif i < len(cs):
+            cs[i] = rng.choice(CHARS)
+    return "".join(cs)
+
+
 def make_texts(rng, tier):
     n = 260 if tier == "quick" else 8000
     texts = []
@@ -86,6 +105,8 @@ def make_texts(rng, tier):
             # point where the parser stops reading must not matter to one entry point only
             tail = " ".join(rng.choice(["xyz", "zz", "5", "end", "x.y", "=", "("]) for _ in range(rng.randint(1, 3)))
             texts.append(("unread-tail", v + "\n" + tail + " " + rng.choice(["#", "$", "`", "\u89c4", "?", "~"]) + rng.choice(["", " more", "\n"])))
+        elif x < 0.62:
+            texts.append(("char-mutated", cmutate(rng, v)))
         elif x < 0.85:
             texts.append(("mutated", mutate(rng, v)))
         else:
@@ -122,15 +143,21 @@ def compile_obligation():
 def parse_rules(lst):
     out = {}
     for s in lst:
-        if s.startswith("!"):
+        if s == "!instance-differs":
             return None
-        n, sal, desc = s.split("|")
+        n, sal, desc = split_rule(s)
         out[n] = (int(sal), desc)
     return out
 
 
+def split_rule(s):
+    """name|salience|description (names and descriptions are arbitrary strings: the first `|integer|` separates them)"""
+    m = re.match(r"^(.*?)\|(-?\d+)\|(.*)$", s, re.S)
+    return m.group(1), m.group(2), m.group(3)
+
+
 def sorted_desc(lst):
-    sals = [int(s.split("|")[1]) for s in lst if not s.startswith("!")]
+    sals = [int(split_rule(s)[1]) for s in lst if s != "!instance-differs"]
     return all(sals[i] >= sals[i + 1] for i in range(len(sals) - 1))
 
 
@@ -189,7 +216,7 @@ def main(run):
         for n, e in es.items():
             if e["err"] and e["before"] != e["after"]:
                 problems.append((o["id"], "not-atomic", n))
-            if not sorted_desc(e["after"]) or not e.get("index_ok", True) or any(s.startswith("!") for s in e["after"]):
+            if not sorted_desc(e["after"]) or not e.get("index_ok", True) or "!instance-differs" in e["after"]:
                 problems.append((o["id"], "corrupt-state", n))
         # success replaces / merges as requested: the full build's result is the oracle for what the text defines
         if acc.get("builder-full"):
@@ -210,6 +237,26 @@ def main(run):
             nontrivial.add(text)
         elif kind == "mutated":
             nontrivial.add(text)
+    # the reader model (Lang/Lexer.v + Lang/Reader.v) decides, inside Coq and from the text alone, whether the rule language
+    # contains the text and which rules it defines: the full build's verdict and installed set must be the model's
+    rcs, seen_t = [], set()
+    for (kind, text), o in zip(texts, obs):
+        es = {e["entry"]: e for e in o.get("entries", [])}
+        e = es.get("builder-full")
+        if o.get("crash") or e is None or e.get("panic") or text in seen_t:
+            continue
+        seen_t.add(text)
+        if e["err"]:
+            rcs.append((o["id"], coq_rcase(o["id"], text, ("reject",))))
+        else:
+            metas = [split_rule(x) for x in e["after"] if x != "!instance-differs"]
+            if all(x.count("|") == 2 for x in e["after"]):
+                rcs.append((o["id"], coq_rcase(o["id"], text, ("meta", [(m[0], m[2], int(m[1])) for m in metas]))))
+            else:
+                rcs.append((o["id"], coq_rcase(o["id"], text, ("accept",))))
+    rmm, runsup = evaluate_reader(PID, [t for _, t in rcs])
+    run.log("reader model: %d texts decided inside Coq, %d outside its domain, %d disagreement(s)" % (len(rcs) - runsup, runsup, len(rmm)))
+    reader_problems = [(cid, "reader-model", RCODES[code]) for cid, code in rmm]
     run.log("%d problem(s) over %d texts" % (len(problems), len(texts)))
     seen = set()
     found_disagree = False
@@ -227,6 +274,13 @@ def main(run):
             sig["accepting"] = sorted(k for k, v in detail.items() if v)
         run.report(sig, {"base": cases[cid]["base"], "text": texts[cid][1], "stream": texts[cid][0], "detail": detail, "observation": obs[cid]},
                    "C10: %s for the text %r: %s" % (code, texts[cid][1][:160], str(detail)[:300]))
+    if reader_problems and not run.violations:
+        # the reader model no longer decides the language the builder accepts: by itself that is no text on which the entry
+        # points differ or a build is not all-or-nothing
+        cid, _, detail = reader_problems[0]
+        run.report({"kind": "correspondence", "symptom": "reader-model"}, {"correspondence": "Lang/ReaderCheck.v rmismatches rcases = [] (reader model vs. the full build's verdict and installed rules)",
+                                                                           "text": texts[cid][1], "disagreement": detail, "observation": obs[cid]},
+                   "C10: %s — text %r; searched %d texts x 5 entry points for a disagreement between entry points" % (detail, texts[cid][1][:160], len(texts)), no_input=True)
     if bad and not found_disagree:
         run.report({"kind": "obligation", "symptom": "ep_wf", "names": bad}, {"obligation": "forallb ep_wf gen_eps = true", "offending": bad, "generated": open(os.path.join(GEN, "Gen_Compile.v")).read()[-900:],
                                                                              "searched": "%d texts x 5 entry points" % len(texts)},
@@ -234,11 +288,12 @@ def main(run):
     if not ok and not run.violations:
         run.report({"kind": "proof", "theorem": PID}, {"theorem": "Props/C10.v", "log": log[-3000:]}, "C10: the Coq development no longer builds and no failing text was found", no_input=True)
     cov = run.coverage
-    cov["discharged"] += (1 if ok and not bad else 0) + (0 if problems else 1)
+    cov["discharged"] += (1 if ok and not bad else 0) + (0 if problems or reader_problems else 1)
     cov.update({"evaluations": len(texts) * 5, "distinct_nontrivial": len(nontrivial),
-                "rule": "truncations first: token-boundary prefixes and suffixes of a valid two-rule text and 20 keyword-only / cut-off headers (where the parser's error recovery has nothing left to consume); then three streams: valid multi-rule texts over 11 body shapes (~38%), token-level mutations of valid texts — delete / replace / insert / swap of 1-3 tokens over a 70-token vocabulary with unknown characters, keyword case variants, unterminated strings and comments, huge literals (~47%), arbitrary bytes incl. NUL and non-ASCII (~15%), plus 16 fixed texts; every text is submitted to all five entry points from a known 3-rule state, and every third text (and all fixed texts) also from the EMPTY state (fresh builder / cleared pool); "
-                        "checked: returned normally (no panic / crash), pairwise accept/reject agreement, exact state equality on reject, on accept the state equals the replacement / merge of the rules the text defines, sortedness and index consistency afterwards; "
+                "rule": "truncations first: token-boundary prefixes and suffixes of a valid two-rule text and 20 keyword-only / cut-off headers (where the parser's error recovery has nothing left to consume); then three streams: valid multi-rule texts over 11 body shapes (~38%), token-level mutations of valid texts — delete / replace / insert / swap of 1-3 tokens over a 70-token vocabulary with unknown characters, keyword case variants, unterminated strings and comments, huge literals (~32%), character-level edits of valid texts — delete / insert / replace 1-3 characters over letters, digits, dots, quotes, operators, brackets and white space, which exercise longest-match tokenisation (~15%), arbitrary bytes incl. NUL and non-ASCII (~15%), plus 16 fixed texts; every text is submitted to all five entry points from a known 3-rule state, and every third text (and all fixed texts) also from the EMPTY state (fresh builder / cleared pool); "
+                        "checked: returned normally (no panic / crash), pairwise accept/reject agreement, the full build's verdict and installed names / saliences / descriptions equal to those the reader model (Lang/Reader.v, evaluated inside Coq on the text) computes, exact state equality on reject, on accept the state equals the replacement / merge of the rules the text defines, sortedness and index consistency afterwards; "
                         "distinct non-trivial = distinct texts that are valid with >= 2 rules, or mutated, or on which the entry points disagree",
+                "reader_model": {"texts_decided_inside_coq": len(rcs) - runsup, "outside_model_domain": runsup, "disagreements": len(reader_problems)},
                 "streams": stream_stats, "entry_points": ENTRIES5, "traces_validated_against_impl": len(texts),
                 "samples": [{"text": texts[20][1], "accepted_by": [e["entry"] for e in obs[20]["entries"] if not e["err"]]}, {"text": texts[0][1], "accepted_by": [e["entry"] for e in obs[0]["entries"] if not e["err"]]}]})
     run.assumptions = ["totality (returns normally for every byte string) is OBSERVED over the generated streams, not proved: the ANTLR runtime and generated lexer/parser are a black box [front] in Compile/Model.v",
